@@ -262,9 +262,17 @@ func c13Gen(seed int64, idx int) *c13Chain {
 						v := parts[0]
 						parts = []yang.Interval{{Lo: v.Lo, Hi: v.Hi}, {Lo: v.Hi, Hi: v.Hi}}
 					case "reversed":
-						v := parts[0]
+						// one part written hi..lo: the only part, the first, or a later one
+						ri := r.Intn(len(parts))
+						v := parts[ri]
 						if v.Lo.Cmp(v.Hi) < 0 {
-							parts = []yang.Interval{{Lo: v.Hi, Hi: v.Lo}}
+							if r.Bool() {
+								parts = []yang.Interval{{Lo: v.Hi, Hi: v.Lo}}
+							} else {
+								parts[ri] = yang.Interval{Lo: v.Hi, Hi: v.Lo}
+							}
+						} else if v0 := parts[0]; v0.Lo.Cmp(v0.Hi) < 0 {
+							parts = []yang.Interval{{Lo: v0.Hi, Hi: v0.Lo}}
 						} else {
 							defectHere = false
 							inject = ""
@@ -331,9 +339,16 @@ func c13Gen(seed int64, idx int) *c13Chain {
 						v := parts[0]
 						parts = []yang.Interval{{Lo: v.Lo, Hi: v.Hi}, {Lo: v.Hi, Hi: v.Hi}}
 					case "reversed":
-						v := parts[0]
+						ri := r.Intn(len(parts))
+						v := parts[ri]
 						if v.Lo.Cmp(v.Hi) < 0 {
-							parts = []yang.Interval{{Lo: v.Hi, Hi: v.Lo}}
+							if r.Bool() {
+								parts = []yang.Interval{{Lo: v.Hi, Hi: v.Lo}}
+							} else {
+								parts[ri] = yang.Interval{Lo: v.Hi, Hi: v.Lo}
+							}
+						} else if v0 := parts[0]; v0.Lo.Cmp(v0.Hi) < 0 {
+							parts = []yang.Interval{{Lo: v0.Hi, Hi: v0.Lo}}
 						} else {
 							defectHere, inject = false, ""
 						}
